@@ -207,6 +207,7 @@ class VtsHarness:
         it.call_hook = self.hook
         self.actions_may_sleep = True
         self.clock_at_loop_exit = None
+        self.loop_entered = False
         self.is_datetime = ctx.choose(2, "datetime_clock") == 0
         base_isinstance = it.externals["builtins.isinstance"]
 
@@ -240,6 +241,7 @@ class VtsHarness:
         w = self.w
         name = lc["name"]
         uid = f"{VFILE}::VirtualTimeScheduler.{name}"
+        self.loop_entered = True
         # the invariant holds on entry: lock free
         self.rec(ctx, uid + "/loop/entry/lock-free", all(d == 0 for d in w.depth.values()))
         entry_clock = self.clock_term(it)
@@ -397,6 +399,14 @@ class VtsHarness:
                     self.rec(ctx, uid + "/clock-ends-at-target-or-where-an-action-left-it-if-later", clock1 == z3.If(ce > t, ce, t),
                              detail="after the run loop the clock is the target, unless an action moved it past the target (sleep): then it stays there")
                     self.rec(ctx, uid + "/clock-never-backwards", z3.And(clock1 >= clock0, clock1 >= ce))
+                elif getattr(self, "loop_entered", False):
+                    # it returned from INSIDE the run loop (neither the loop condition nor a break): the epilogue - scheduler disabled, clock at
+                    # the target unless an action left it later - must hold all the same
+                    en1_ = it.truth_term(o.fields["_is_enabled"])
+                    en1_ = z3.BoolVal(en1_) if isinstance(en1_, bool) else en1_
+                    self.rec(ctx, uid + "/a-return-from-inside-the-run-loop-leaves-what-the-epilogue-leaves (disabled, clock at the target or later)",
+                             z3.And(z3.Not(en1_), clock1 >= t, clock1 >= clock0),
+                             detail="advance_to returned from inside its loop without the epilogue: the clock is short of the target / the scheduler still enabled")
                 else:
                     # returned before the run loop: only because a run is already in progress (the property: advance_to runs exactly the actions
                     # due at or before the target - also when the target IS the current clock)
